@@ -521,4 +521,87 @@ class SweepArm(Arm):
         return {"variant": case["init"].get("variant"), "nodes": case["init"]["specs"][0]["nodes"], "ops": case["ops"]}
 
 
-ARMS = [HistoryArm(), SweepArm()]
+class SameNameArm(Arm):
+    """ONE model whose node types use different operator templates that carry the same name (different equations and
+    default values): every node must get the equations and values of its own operator (the operator cache is keyed by
+    name).  Oracle: the reference interpreter of the spec with distinct operator names."""
+    name = "same_name_operators"
+    budget = {"quick": 60, "thorough": 600}
+    min_per_shard = 3
+    case_timeout = 120
+
+    def strategy(self, ctx):
+        @st.composite
+        def case(draw):
+            cfg = {"leak": True, "min_types": 2, "max_types": 2, "max_ops": 1, "max_nodes": 3, "min_nodes": 2, "max_edges": 0,
+                   "expr_depth": 2, "depths": [0], "collision": False, "max_alg": 1, "overrides": False,
+                   "funcs": ["tanh", "sigmoid", "exp"], "pow": False}
+            spec = gen.uniquify_init(draw(gen.model_spec(cfg)))
+            return {"spec": spec, "cfg": {"vectorize": draw(st.booleans())}}
+        return case()
+
+    def run(self, case, ctx):
+        from pyrates import CircuitTemplate, NodeTemplate
+        from .. import isolate
+        from ..model import build_operator, Compiled
+        res = CaseResult()
+        spec, vec = case["spec"], case["cfg"]["vectorize"]
+        used = sorted({o for _, nt in spec["nodes"] for o in spec["ntypes"][nt]["ops"]})
+        if len(used) < 2 or any(len(spec["ntypes"][nt]["ops"]) != 1 for _, nt in spec["nodes"]):
+            res.rejected = "needs two node types with one operator each"
+            return res
+        # (shapes of listed findings about vectorisation are not this arm's subject)
+        from ..findings import PREDICATES
+        for fid in ("F-04b",):
+            try:
+                if fid in PREDICATES and PREDICATES[fid](case):
+                    res.excluded = fid
+                    return res
+            except Exception:
+                pass
+        rm = RefModel(spec)
+        res.nontrivial = True
+        res.labels = ["vec" if vec else "novec"]
+        isolate.reset()
+        try:
+            ops = {o: build_operator("opx", spec["ops"][o]) for o in used}
+            nts = {}
+            for nt in sorted({n for _, n in spec["nodes"]}):
+                o = spec["ntypes"][nt]["ops"][0]
+                ov = dict((spec["ntypes"][nt].get("ov") or {}).get(o) or {})
+                nts[nt] = NodeTemplate(name=nt, path=None, operators={ops[o]: ov} if ov else [ops[o]])
+            circ = CircuitTemplate(name="net", path=None, nodes={p: nts[nt] for p, nt in spec["nodes"]})
+            with warnings.catch_warnings():
+                warnings.simplefilter("ignore")
+                func, args, names, svm = circ.get_run_func("pv_sn", step_size=DT, vectorize=vec, in_place=False, clear=True,
+                                                           verbose=False, float_precision="float64", backend="default",
+                                                           file_name="pv_gen_sn")
+            comp = Compiled(func, args, names, svm, backend="default", inplace=True)
+            out = comp.call(0.0, comp.y0)
+        except HarnessError:
+            raise
+        except Exception as e:
+            res.violate(exc_bucket("same-name-operators-raise", e), short_exc(e))
+            return res
+        # (initial values are unique per variable: the pairs (initial value, derivative) identify the variables, whatever
+        #  the layout of the - possibly vectorised - state vector)
+        ref = rm.vf(rm.y0())
+        want = sorted((rm.y0()[p], ref[p][0], ref[p][1], p) for p in rm.state_paths)
+        got = sorted(zip(comp.y0.tolist(), out.tolist()))
+        if len(got) != len(want):
+            res.violate("same-name-operators:state-count", f"{len(got)} state variables, the model has {len(want)}")
+            return res
+        for (y0w, dw, mag, p), (y0g, dg) in zip(want, got):
+            if abs(y0g - y0w) > 1e-12 or abs(dg - dw) > 1e-9 * mag + 1e-10:
+                o = spec["ntypes"][dict((a, b) for a, b in spec["nodes"])[p.split("/")[0]]]["ops"][0]
+                res.violate("same-name-operators:wrong-values",
+                            f"{p} (operator {o} of the spec, named 'opx' like the operator of the other node type): initial "
+                            f"value {y0g!r} (declared {y0w!r}), derivative {dg!r} (its own equation gives {dw!r})")
+                return res
+        return res
+
+    def sample(self, case):
+        return {"nodes": case["spec"]["nodes"], "cfg": case["cfg"]}
+
+
+ARMS = [HistoryArm(), SweepArm(), SameNameArm()]
